@@ -231,7 +231,7 @@ pub fn run(tier: Tier) -> i32 {
     }
     run.exhaustive = run.counter("capped-values") == 0;
     run.note("deviation_bounds_completed", json!({"scalars": 2, "scalars_small_space": "unbounded", "containers": 1, "core": 2, "values_capped": run.counter("capped-values")}));
-    for t in ["crlf", "comma-space", "escape-spelling", "number-spelling", "dict-separator", "trailing-comma", "marker-spelling", "utc-spelling", "fraction-digits", "trailing-blank-line", "newline-after-<<", "meta-space", "zero-offset-spelling", "space-before-comma", "list-inner-space", "dict-inner-space"] {
+    for t in ["crlf", "comma-space", "escape-spelling", "number-spelling", "dict-separator", "trailing-comma", "marker-spelling", "utc-spelling", "fraction-digits", "trailing-blank-line", "newline-after-<<", "meta-space", "zero-offset-spelling", "space-before-comma", "list-inner-space", "dict-inner-space", "utc-fields-with-zone"] {
         run.require(run.counter(&format!("deviated:{t}")) > 0, &format!("choice-point type {t} never deviated"));
     }
     run.require(run.counter("d1-values") > 50_000, "direction 1 too small");
